@@ -240,6 +240,59 @@ func drvMisc(c *ctx) error {
 				"s10": milli(sensitivity.CalculateSensitivity(bw*10, 0, 0)), "s2": milli(sensitivity.CalculateSensitivity(bw*2, 0, 0)),
 				"lb": milli(sensitivity.CalculateLinkBudget(bw, nf, snr, tx))})
 		}
+	case "zerovalue": // extended coverage: methods on zero values and on values whose optional / interface members are nil
+		var k lorawan.AES128Key
+		var eui lorawan.EUI64
+		p0 := uint8(0)
+		calls := []struct {
+			name string
+			f    func() error
+		}{
+			{"CFList{}.MarshalBinary", func() error { _, e := lorawan.CFList{}.MarshalBinary(); return e }},
+			{"CFList{mask,nil}.MarshalBinary", func() error { _, e := lorawan.CFList{CFListType: lorawan.CFListChannelMask}.MarshalBinary(); return e }},
+			{"JoinAcceptPayload{CFList{}}.MarshalBinary", func() error { _, e := lorawan.JoinAcceptPayload{CFList: &lorawan.CFList{}}.MarshalBinary(); return e }},
+			{"PHYPayload{}.MarshalBinary", func() error { _, e := lorawan.PHYPayload{}.MarshalBinary(); return e }},
+			{"PHYPayload{}.MarshalText", func() error { _, e := lorawan.PHYPayload{}.MarshalText(); return e }},
+			{"PHYPayload{}.MarshalJSON", func() error { _, e := lorawan.PHYPayload{}.MarshalJSON(); return e }},
+			{"PHYPayload{JoinAccept}.MarshalBinary", func() error {
+				_, e := lorawan.PHYPayload{MHDR: lorawan.MHDR{MType: lorawan.JoinAccept}}.MarshalBinary()
+				return e
+			}},
+			{"MACCommand{}.MarshalBinary", func() error { _, e := lorawan.MACCommand{}.MarshalBinary(); return e }},
+			{"MACCommand{LinkADRReq,nil}.MarshalBinary", func() error { _, e := lorawan.MACCommand{CID: lorawan.LinkADRReq}.MarshalBinary(); return e }},
+			{"MACPayload{}.MarshalBinary", func() error { _, e := lorawan.MACPayload{}.MarshalBinary(); return e }},
+			{"MACPayload{port0}.MarshalBinary", func() error { _, e := lorawan.MACPayload{FPort: &p0}.MarshalBinary(); return e }},
+			{"PHYPayload{}.SetUplinkDataMIC", func() error { var ph lorawan.PHYPayload; return ph.SetUplinkDataMIC(lorawan.LoRaWAN1_1, 0, 0, 0, k, k) }},
+			{"PHYPayload{}.SetDownlinkDataMIC", func() error { var ph lorawan.PHYPayload; return ph.SetDownlinkDataMIC(lorawan.LoRaWAN1_1, 0, k) }},
+			{"PHYPayload{}.ValidateUplinkDataMIC", func() error { var ph lorawan.PHYPayload; _, e := ph.ValidateUplinkDataMIC(lorawan.LoRaWAN1_0, 0, 0, 0, k, k); return e }},
+			{"PHYPayload{}.ValidateDownlinkDataMIC", func() error { var ph lorawan.PHYPayload; _, e := ph.ValidateDownlinkDataMIC(lorawan.LoRaWAN1_0, 0, k); return e }},
+			{"PHYPayload{}.SetUplinkJoinMIC", func() error { var ph lorawan.PHYPayload; return ph.SetUplinkJoinMIC(k) }},
+			{"PHYPayload{}.ValidateUplinkJoinMIC", func() error { var ph lorawan.PHYPayload; _, e := ph.ValidateUplinkJoinMIC(k); return e }},
+			{"PHYPayload{}.SetDownlinkJoinMIC", func() error { var ph lorawan.PHYPayload; return ph.SetDownlinkJoinMIC(lorawan.JoinRequestType, eui, 0, k) }},
+			{"PHYPayload{}.ValidateDownlinkJoinMIC", func() error { var ph lorawan.PHYPayload; _, e := ph.ValidateDownlinkJoinMIC(lorawan.JoinRequestType, eui, 0, k); return e }},
+			{"PHYPayload{}.EncryptJoinAcceptPayload", func() error { var ph lorawan.PHYPayload; return ph.EncryptJoinAcceptPayload(k) }},
+			{"PHYPayload{}.DecryptJoinAcceptPayload", func() error { var ph lorawan.PHYPayload; return ph.DecryptJoinAcceptPayload(k) }},
+			{"PHYPayload{}.EncryptFOpts", func() error { var ph lorawan.PHYPayload; return ph.EncryptFOpts(k) }},
+			{"PHYPayload{}.DecryptFOpts", func() error { var ph lorawan.PHYPayload; return ph.DecryptFOpts(k) }},
+			{"PHYPayload{}.EncryptFRMPayload", func() error { var ph lorawan.PHYPayload; return ph.EncryptFRMPayload(k) }},
+			{"PHYPayload{}.DecryptFRMPayload", func() error { var ph lorawan.PHYPayload; return ph.DecryptFRMPayload(k) }},
+			{"PHYPayload{}.DecodeFOptsToMACCommands", func() error { var ph lorawan.PHYPayload; return ph.DecodeFOptsToMACCommands() }},
+			{"PHYPayload{}.DecodeFRMPayloadToMACCommands", func() error { var ph lorawan.PHYPayload; return ph.DecodeFRMPayloadToMACCommands() }},
+			{"PHYPayload{data,&MACPayload{}}.all", func() error {
+				ph := lorawan.PHYPayload{MHDR: lorawan.MHDR{MType: lorawan.UnconfirmedDataUp}, MACPayload: &lorawan.MACPayload{}}
+				ph.SetUplinkDataMIC(lorawan.LoRaWAN1_1, 0, 0, 0, k, k)
+				ph.EncryptFOpts(k)
+				ph.EncryptFRMPayload(k)
+				ph.DecodeFOptsToMACCommands()
+				ph.DecodeFRMPayloadToMACCommands()
+				_, e := ph.MarshalBinary()
+				return e
+			}},
+		}
+		for _, cl := range calls {
+			res, _ := observe(cl.f)
+			c.emit(M{"ev": "zerovalue", "call": cl.name, "res": res})
+		}
 	default:
 		return fmt.Errorf("misc: unknown mode %q", c.mode)
 	}
